@@ -6,7 +6,9 @@ args = sys.argv[1:]
 root, pat = '/verif/refactorings', 'r*.diff'
 if args and args[0] == '--features':
     root, pat = '/verif/features', 'f*.diff'; args = args[1:]
-only = args
+only = [a for a in args if not a.startswith('--pat=')]
+for a in args:
+    if a.startswith('--pat='): pat = a[6:]  # PATTERN override, e.g. --pat='r[6-9].diff'
 assert subprocess.run('git -C /repo status --porcelain', shell=True, capture_output=True, text=True).stdout.strip() == '', '/repo not clean'
 os.makedirs('/tmp/sweep-verif', exist_ok=True); shutil.copy('/verif/known_findings.json', '/tmp/sweep-verif/known_findings.json')
 shutil.rmtree('/tmp/sweep-verif/baseline', ignore_errors=True); shutil.copytree('/verif/baseline', '/tmp/sweep-verif/baseline')
